@@ -174,11 +174,19 @@ def numeric_types(zm, z0, ws, ustar, L, sigma_v, types, dom, res, mxy):
         warnings.simplefilter("ignore")
         gx, gy, ffm = estimateFootprint(args["zm"], args["z0"], args["ws"], args["ustar"],
                                         args["L"], args["sigma_v"], dom, res, mxy)
+        _, _, fflt = estimateFootprint(float(zm), float(z0), float(ws), float(ustar), float(L),
+                                       float(sigma_v), dom, res, mxy)
     want = km_cells(p, sigma_v, gx - mxy[0], gy - mxy[1], res)
-    ints = sorted(k for k, t in types.items() if t.startswith("int"))
-    key = "integer-zm-truncation" if "zm" in ints else "integer-%s" % "+".join(ints or ["none"])
     tag = "types %r (zm=%r z0=%r ws=%r u*=%r L=%r sv=%r)" % (types, zm, z0, ws, ustar, L, sigma_v)
+    bad = _compare(fflt, want, "all-float call, " + tag, "closed-form")
+    if bad:
+        return bad            # not a matter of argument types
+    ints = sorted(k for k, t in types.items() if t.startswith("int"))
+    key = "integer-zm-truncation" if "zm" in ints else "numeric-type-%s" % "+".join(
+        sorted(types) or ["none"])
     bad = _compare(ffm, want, tag, key)
+    if bad:
+        bad.detail += "; the all-float call agrees with the closed form"
     return bad or Verdict(True, tag)
 
 
